@@ -8,6 +8,9 @@ macro_rules! warn { ($($t:tt)*) => { () } }
 macro_rules! error { ($($t:tt)*) => { () } }
 //@@ inside-verus
 
+// the shipped targets are 64-bit
+global size_of usize == 8;
+
 // ---------------------------------------------------------------------------------------------
 // String as an opaque byte sequence (assumption A4)
 
